@@ -581,8 +581,11 @@ namespace detail_ {
 
 					case modes::width:
 						if (isdigit(c)) {
-							fo.minimum_width *= 10;
-							fo.minimum_width += spec[i] - '0';
+							// Saturate instead of overflowing on absurdly long digit runs.
+							if (fo.minimum_width > (__INT_MAX__ - (spec[i] - '0')) / 10)
+								fo.minimum_width = __INT_MAX__;
+							else
+								fo.minimum_width = fo.minimum_width * 10 + (spec[i] - '0');
 						} else {
 							switch (spec[i]) {
 								case 'b': fo.conversion = format_conversion::binary; break;
